@@ -1,5 +1,6 @@
 import Deltio.Lemmas.SubRun
 import Deltio.Lemmas.SysSub
+import Deltio.Lemmas.SysInv
 /-
   C01 — Fan-out without loss: every accepted message reaches every attached subscription.
   Subscription-local part: all turn sequences of the subscription's actor (= all schedules of any
@@ -126,6 +127,37 @@ theorem C01_fanout (sys : Sys) (raw : Bytes) (msgs : List (Bytes × List (Bytes 
     ({ sys with topics := sys.topics.map (fun x => if x.tid == t.tid then { x with nextMsg := x.nextMsg + msgs.length } else x),
                 pubSeq := sys.pubSeq + 1 } : Sys) hs hnd
   exact ⟨rfl, h.1, h.2.1⟩
+
+/-- In a state satisfying the global invariant the attached list of a topic has distinct ids. -/
+theorem attached_nodup {sys : Sys} (h : SysInv sys) (t : TopicEnt) (ht : t ∈ sys.topics) : (t.subs.map (·.2)).Nodup := by
+  have ha := h.attach ⟨t.tid, t.name, t.subs⟩ (by
+    unfold Sys.tsh
+    exact List.mem_map_of_mem (f := fun t => (⟨t.tid, t.name, t.subs⟩ : TSh)) ht)
+  simp only at ha
+  rw [ha]
+  unfold attachedOf
+  simp only [List.map_map]
+  have hs := h.sids
+  have hsub : List.Sublist (List.map ((fun (x : Name × Nat) => x.2) ∘ fun (e : SSh) => (e.name, e.sid)) (List.filter (fun e => e.topicId == t.tid) sys.ssh))
+      (sys.ssh.map (·.sid)) := by
+    have : ((fun (x : Name × Nat) => x.2) ∘ fun (e : SSh) => (e.name, e.sid)) = (fun (e : SSh) => e.sid) := rfl
+    rw [this]
+    exact (List.filter_sublist).map _
+  exact (hs.sublist hsub).imp (fun h => Nat.ne_of_lt h)
+
+/-- C01 (system level) for every reachable state: after ANY history that leaves no StreamingPull
+    open, a Publish hands its messages, by one `post` turn each, to exactly the subscriptions
+    attached to the topic — which are exactly the live subscriptions created on it (`C11_list_eq`). -/
+theorem C01_fanout_reachable (ops : List SysOp) (raw : Bytes) (msgs : List (Bytes × List (Bytes × Bytes))) (n : Name) (t : TopicEnt)
+    (hp : parseTopicName raw = some n) (hf : (Sys.init.execOps ops).findTopic n = some t)
+    (hs : (Sys.init.execOps ops).streams = []) :
+    let sys := Sys.init.execOps ops
+    let ms := mkMsgs t.tid t.nextMsg sys.pubSeq msgs 0
+    (sys.rpc (.publish raw msgs)).2 = .ids (ms.map (·.id)) ∧
+    (∀ sid', sid' ∉ t.subs.map (·.2) → (sys.rpc (.publish raw msgs)).1.stateOf sid' = sys.stateOf sid') ∧
+    (∀ sid ∈ t.subs.map (·.2), ∀ st, sys.stateOf sid = some st →
+        (sys.rpc (.publish raw msgs)).1.stateOf sid = some ((st.turn (.post ms)).1.turn (.expire sys.clock)).1) :=
+  C01_fanout _ raw msgs n t hp hf hs (attached_nodup (SysInv_all ops) t (List.mem_of_find?_eq_some hf))
 
 /-! non-vacuity (two subscriptions on one topic) -/
 example :
